@@ -22,6 +22,9 @@
 -/
 import PyTough.Model.Mapping
 import PyTough.Proofs.MappingRefine2
+import PyTough.Proofs.MappingMoreNearest
+import PyTough.Proofs.MappingMoreIdentity
+import PyTough.Proofs.MappingMoreGen
 
 namespace Props.C19
 open Py Model.Mapping
@@ -344,5 +347,283 @@ def exGens : List Gen :=
 
 example : genIdentitySetting (exSrc 0) exGrid [true, true] exIdMap exIdCols = true ∧
     ∀ sg ∈ exGens, genPlaced (exSrc 0) exGrid exGrid [['9', '9']] [['9', '8']] sg = true := by decide +kernel
+
+/-! ### `layer_mapping`: the nearest centre, and the first of the nearest (round 3)
+
+  No GeoInv here: the layer structures are ARBITRARY (centres and bottoms in any order, any
+  thickness); only needed: the source has a layer below its atmosphere layer (else `np.argmin`
+  of an empty array raises) and the target's layer names are distinct (they are dict keys). -/
+
+/-- `s.layer_mapping(t)` returns; the atmosphere layer goes to the atmosphere layer; every other
+    target layer `l` goes to the source layer `S = s.layerlist[1 + i]` with
+    (nearest) `|S.centre − l.centre| ≤ |X.centre − l.centre|` for EVERY source layer `X` below the
+    atmosphere layer, and (tie rule of `np.argmin`) strictly `<` for every such `X` before `S`. -/
+theorem layer_mapping_nearest_first (s t : Geo) (g0 s0 : Lay) (grest srest : List Lay)
+    (hg : t.lays = g0 :: grest) (hs : s.lays = s0 :: srest) (hne : srest ≠ [])
+    (hnd : nodupB (t.lays.map (·.name)) = true) :
+    ∃ lm, layerMapping s t = .ok lm ∧ dget lm g0.name = .ok s0.name ∧
+      ∀ l ∈ grest, ∃ (i : Nat) (S : Lay), srest[i]? = some S ∧ dget lm l.name = .ok S.name ∧
+        (∀ X ∈ srest, absQ (S.centre - l.centre) ≤ absQ (X.centre - l.centre)) ∧
+        ∀ (j : Nat) (X : Lay), j < i → srest[j]? = some X → absQ (S.centre - l.centre) < absQ (X.centre - l.centre) := by
+  obtain ⟨lm, h1, h2, h3⟩ := Proofs.Mapping.layerMapping_first s t g0 s0 grest srest hg hs hne hnd
+  refine ⟨lm, h1, h2, fun l hl => ?_⟩
+  obtain ⟨i, S, ⟨a, b, c⟩, d⟩ := h3 l hl
+  exact ⟨i, S, a, d, b, c⟩
+
+/-- unordered source layers (centres −25, −5, −15, −5) and a target layer (centre −10) exactly
+    half way between two of them -/
+def exLaySrc : Geo :=
+  { conv := .c0, atm := 2, dmplex := false, cols := [],
+    lays := [⟨[' ', '0'], 0, 0⟩, ⟨[' ', '3'], -30, -25⟩, ⟨[' ', '1'], -10, -5⟩, ⟨[' ', '2'], -20, -15⟩, ⟨[' ', '4'], -7, -5⟩] }
+def exLayTgt : Geo :=
+  { conv := .c0, atm := 2, dmplex := false, cols := [],
+    lays := [⟨['a', 't'], 0, 0⟩, ⟨[' ', 'x'], -12, -10⟩, ⟨[' ', 'y'], -100, -50⟩] }
+
+example : exLaySrc.lays.drop 1 ≠ [] ∧ nodupB (exLayTgt.lays.map (·.name)) = true := by decide +kernel
+-- the tie between ' 1' (index 1) and ' 2' (index 2) goes to the first; ' 4' (same centre as ' 1') loses too
+example : layerMapping exLaySrc exLayTgt =
+    .ok [(['a', 't'], [' ', '0']), ([' ', 'x'], [' ', '1']), ([' ', 'y'], [' ', '3'])] := by decide +kernel
+
+/-! ### a concrete nearest-neighbour search instead of the parameter `q` (round 3)
+
+  `nearestIdx pts p` (defined in `Proofs/MappingMoreNearest.lean`, namespace `Model.Mapping`):
+  one left-to-right pass over the exact squared distances, keeping the best index so far and
+  replacing it only by a STRICTLY nearer point; 0 for an empty set.  It is what the scipy-less
+  fallback of `column_mapping` (`np.argmin` of the distances) computes, up to the monotone `sqrt`.
+  The theorems above hold for every `q` with `IsNearest q`; instantiated here they carry no
+  uninterpreted parameter any more. -/
+
+/-- `nearestIdx` meets the specification assumed of `cKDTree.query` -/
+theorem nearestIdx_is_nearest : IsNearest nearestIdx := Proofs.Mapping.nearestIdx_isNearest
+
+/-- more precisely: the point it returns is at minimal distance, and every point before it is
+    strictly farther (first minimum) -/
+theorem nearestIdx_first_minimum (pts : List (Rat × Rat)) (p : Rat × Rat) (hne : pts ≠ []) :
+    ∃ y, pts[nearestIdx pts p]? = some y ∧ (∀ x ∈ pts, sqDist y p ≤ sqDist x p) ∧
+      ∀ j w, j < nearestIdx pts p → pts[j]? = some w → sqDist y p < sqDist w p :=
+  Proofs.Mapping.nearestIdx_first pts p hne
+
+example : nearestIdx [(0, 0), (3, 0), (1, 0), (1, 2)] (2, 0) = 1 := by decide +kernel
+example : nearestIdx [(0, 0), (3, 0), (1, 0), (1, 2)] (2, 0) = nearestFirst [(0, 0), (3, 0), (1, 0), (1, 2)] (2, 0) := by
+  decide +kernel
+
+/-- `block_mapping_total_partial` at `nearestIdx` (PARTIAL through `atmOK` only) -/
+theorem block_mapping_total_nearestIdx_partial (s t : Geo)
+    (hs : srcOK s = true) (ht : tgtOK t = true) (ha : atmOK s t = true) :
+    ∃ m cm tnames snames,
+      blockMapping nearestIdx s t = .ok (m, cm) ∧ t.blockNameList = .ok tnames ∧ s.blockNameList = .ok snames ∧
+      (∀ d ∈ tnames, ∃ v, dget m d = .ok v) ∧
+      (∀ un, t.underNames = .ok un → ∀ d ∈ un, ∃ v, dget m d = .ok v ∧ v ∈ snames ∧
+          ∃ sun, s.underNames = .ok sun ∧ v ∈ sun) ∧
+      (∀ an, t.atmNames = .ok an → s.atm ≤ 1 → ∀ d ∈ an, ∃ v, dget m d = .ok v ∧ v ∈ snames ∧
+          ∃ san, s.atmNames = .ok san ∧ v ∈ san) ∧
+      (∀ c ∈ t.cols, ∃ C ∈ s.cols, dget cm c.name = .ok C.name) :=
+  block_mapping_total_partial nearestIdx nearestIdx_is_nearest s t hs ht ha
+
+/-- `block_mapping_spec_partial` at `nearestIdx` (PARTIAL through `atmOK` only) -/
+theorem block_mapping_spec_nearestIdx_partial (s t : Geo)
+    (hs : srcOK s = true) (ht : tgtOK t = true) (ha : atmOK s t = true) :
+    ∃ m cm, blockMapping nearestIdx s t = .ok (m, cm) ∧
+      (∀ c ∈ t.cols, ∃ C, NearestCol s c.centre C ∧ dget cm c.name = .ok C.name) ∧
+      ∀ l c, (l, c) ∈ t.underPairs →
+        ∃ C S L', NearestCol s c.centre C ∧ NearestLay (s.lays.drop 1) l.centre S ∧
+          (if C.surface ≤ S.bottom then s.firstBelow C = some L' else L' = S) ∧
+          (L', C) ∈ s.underPairs ∧
+          ∃ d v, blockName t.conv l.name c.name = .ok d ∧ blockName s.conv L'.name C.name = .ok v ∧
+            dget m d = .ok v :=
+  block_mapping_spec_partial nearestIdx nearestIdx_is_nearest s t hs ht ha
+
+/-- `block_mapping_atmosphere_partial` at `nearestIdx` (PARTIAL through `atmOK` only) -/
+theorem block_mapping_atmosphere_nearestIdx_partial (s t : Geo)
+    (hs : srcOK s = true) (ht : tgtOK t = true) (ha : atmOK s t = true) :
+    ∃ m cm g0 s0, blockMapping nearestIdx s t = .ok (m, cm) ∧ t.lays.head? = some g0 ∧ s.lays.head? = some s0 ∧
+      (t.atm = 0 → s.atm = 0 ∧ ∃ d v, t.atmNames = .ok [d] ∧ s.atmNames = .ok [v] ∧ dget m d = .ok v) ∧
+      (t.atm = 1 → ∀ c ∈ t.cols, ∃ C, NearestCol s c.centre C ∧
+          ∃ d v, blockName t.conv g0.name c.name = .ok d ∧
+            blockName s.conv s0.name (if s.atm = 0 then atmColName s.conv else C.name) = .ok v ∧
+            dget m d = .ok v) :=
+  block_mapping_atmosphere_partial nearestIdx nearestIdx_is_nearest s t hs ht ha
+
+/-- `incon_transfer_total_partial` at `nearestIdx` (PARTIAL through `atmOK` only) -/
+theorem incon_transfer_total_nearestIdx_partial (src : Incon) (s t : Geo)
+    (hs : srcOK s = true) (ht : tgtOK t = true) (ha : atmOK s t = true) (hne : src ≠ [])
+    (hcover : ∀ snames, s.blockNameList = .ok snames → ∀ n ∈ snames, ∃ v, dget src n = .ok v) :
+    ∃ res tnames, transferFrom nearestIdx src s t [] [] = .ok res ∧ t.blockNameList = .ok tnames ∧
+      ∀ d ∈ tnames, ∃ v, dget res d = .ok v :=
+  incon_transfer_total_partial nearestIdx nearestIdx_is_nearest src s t hs ht ha hne hcover
+
+/-- `block_mapping_identity` at `nearestIdx` -/
+theorem block_mapping_identity_nearestIdx (g : Geo)
+    (hs : srcOK g = true) (ht : tgtOK g = true) (hd : distinctCentres g = true) :
+    ∃ m cm names, blockMapping nearestIdx g g = .ok (m, cm) ∧ g.blockNameList = .ok names ∧
+      (∀ d ∈ names, dget m d = .ok d) ∧ (∀ c ∈ g.cols, dget cm c.name = .ok c.name) :=
+  block_mapping_identity nearestIdx nearestIdx_is_nearest g hs ht hd
+
+/-- `block_mapping_keyerror_general` at `nearestIdx` -/
+theorem block_mapping_keyerror_nearestIdx (s t : Geo)
+    (hs : srcOK s = true) (ht : tgtOK t = true) (h0 : t.atm = 0) (hsa : s.atm ≠ 0)
+    (hnc : ∀ c ∈ t.cols, c.name ≠ atmColName t.conv) :
+    blockMapping nearestIdx s t = .error .keyError :=
+  block_mapping_keyerror_general nearestIdx nearestIdx_is_nearest s t hs ht h0 hsa hnc
+
+-- hypotheses: the same examples as for the parametric theorems (`exSrc`, `exTgt`, `exInc`); the
+-- instantiated functions compute:
+example : image (blockMapping nearestIdx (exSrc 2) (exTgt 2)) [' ', 'a', ' ', ' ', '3'] = some [' ', ' ', 'b', ' ', '2'] := by decide +kernel
+example : (transferFrom nearestIdx (exInc 1) (exSrc 1) (exTgt 1) [] []).toBool = true := by decide +kernel
+example : exInc 1 ≠ [] ∧ ∀ snames, (exSrc 1).blockNameList = .ok snames → ∀ n ∈ snames, ∃ v, dget (exInc 1) n = .ok v := by
+  refine ⟨by decide +kernel, ?_⟩
+  intro snames h n hn
+  have e : (exSrc 1).blockNameList = .ok ((exInc 1).map (·.1)) := by decide +kernel
+  rw [e] at h; cases h
+  have : ∀ n ∈ (exInc 1).map (·.1), (dget (exInc 1) n).toBool = true := by decide +kernel
+  have := this n hn
+  cases hv : dget (exInc 1) n with
+  | ok v => exact ⟨v, rfl⟩
+  | error e => rw [hv] at this; cases this
+
+/-! ### identity on equal grids, for every atmosphere combination that returns (round 3)
+
+  `block_mapping_identity` maps a geometry onto ITSELF, so source and target atmosphere types
+  coincide (3 of the 9 combinations).  Here `s` and `t` are the same grid — same naming convention,
+  columns and layers — with independent atmosphere types and block orders: all 7 combinations
+  allowed by `atmOK` (the other two raise: `block_mapping_keyerror_general`). -/
+
+/-- Every underground block and every column is mapped to itself.  Atmosphere blocks:
+    single onto single is the identity; the target's block over column `c` (target type 1) keeps
+    its name when the source is type 1 (its own atmosphere block there) or type 2 (a name the
+    source does not have — as the code does), and goes to the source's single atmosphere block
+    when the source is type 0.  PARTIAL through `atmOK` only. -/
+theorem block_mapping_identity_same_grid_partial (q : List (Rat × Rat) → Rat × Rat → Nat) (hq : IsNearest q)
+    (s t : Geo) (hconv : s.conv = t.conv) (hcols : s.cols = t.cols) (hlays : s.lays = t.lays)
+    (hs : srcOK s = true) (ht : tgtOK t = true) (ha : atmOK s t = true) (hd : distinctCentres t = true) :
+    ∃ m cm un g0, blockMapping q s t = .ok (m, cm) ∧ t.underNames = .ok un ∧ t.lays.head? = some g0 ∧
+      (∀ d ∈ un, dget m d = .ok d) ∧ (∀ c ∈ t.cols, dget cm c.name = .ok c.name) ∧
+      (t.atm = 0 → s.atm = 0 ∧ ∃ d, t.atmNames = .ok [d] ∧ s.atmNames = .ok [d] ∧ dget m d = .ok d) ∧
+      (t.atm = 1 → ∀ c ∈ t.cols, ∃ d, blockName t.conv g0.name c.name = .ok d ∧
+          (s.atm ≠ 0 → dget m d = .ok d) ∧
+          (s.atm = 0 → ∃ a, s.atmNames = .ok [a] ∧ dget m d = .ok a)) :=
+  Proofs.Mapping.blockMapping_sameGrid q hq s t hconv hcols hlays
+    (Proofs.Mapping.srcWF_of s hs) (Proofs.Mapping.tgtWF_of t ht) ha hd
+
+/-- the same at the concrete search `nearestIdx` -/
+theorem block_mapping_identity_same_grid_nearestIdx_partial
+    (s t : Geo) (hconv : s.conv = t.conv) (hcols : s.cols = t.cols) (hlays : s.lays = t.lays)
+    (hs : srcOK s = true) (ht : tgtOK t = true) (ha : atmOK s t = true) (hd : distinctCentres t = true) :
+    ∃ m cm un g0, blockMapping nearestIdx s t = .ok (m, cm) ∧ t.underNames = .ok un ∧ t.lays.head? = some g0 ∧
+      (∀ d ∈ un, dget m d = .ok d) ∧ (∀ c ∈ t.cols, dget cm c.name = .ok c.name) ∧
+      (t.atm = 0 → s.atm = 0 ∧ ∃ d, t.atmNames = .ok [d] ∧ s.atmNames = .ok [d] ∧ dget m d = .ok d) ∧
+      (t.atm = 1 → ∀ c ∈ t.cols, ∃ d, blockName t.conv g0.name c.name = .ok d ∧
+          (s.atm ≠ 0 → dget m d = .ok d) ∧
+          (s.atm = 0 → ∃ a, s.atmNames = .ok [a] ∧ dget m d = .ok a)) :=
+  block_mapping_identity_same_grid_partial nearestIdx nearestIdx_is_nearest s t hconv hcols hlays hs ht ha hd
+
+-- the hypotheses hold for all 7 admissible (source type, target type) pairs over `exSrc` ...
+example : ∀ p ∈ [(0, 0), (0, 1), (0, 2), (1, 1), (1, 2), (2, 1), (2, 2)],
+    srcOK (exSrc p.1) = true ∧ tgtOK (exSrc p.2) = true ∧ atmOK (exSrc p.1) (exSrc p.2) = true ∧
+    distinctCentres (exSrc p.2) = true := by decide +kernel
+-- ... and the two excluded ones raise
+example : blockMapping nearestIdx (exSrc 1) (exSrc 0) = .error .keyError ∧
+    blockMapping nearestIdx (exSrc 2) (exSrc 0) = .error .keyError := ⟨by decide +kernel, by decide +kernel⟩
+-- source type 0, target type 1: the block over column 'b' goes to the single atmosphere block
+example : image (blockMapping nearestIdx (exSrc 0) (exSrc 1)) [' ', ' ', 'b', ' ', '0'] = some ['A', 'T', 'M', ' ', '0'] := by decide +kernel
+example : image (blockMapping nearestIdx (exSrc 2) (exSrc 1)) [' ', ' ', 'b', ' ', '0'] = some [' ', ' ', 'b', ' ', '0'] := by decide +kernel
+
+/-! ### transferring generators between DIFFERENT geometries (round 3)
+
+  `generator_transfer_identity` covers identical geometries.  Here: any two geometries, any
+  mappings (passed in, or computed by `block_mapping` when either is empty: `effectiveMaps`),
+  `rename` and `preserve_totals` on or off — whenever `transfer_generators_from` returns.
+  The new `generatorlist` is the concatenation `ls.flatten` of one list per source generator, in
+  source order; generator number `i` yields `ls[i]` and every item of it records `src = i`, so
+  the statement is by POSITION: source lists with repeated generator names are covered. -/
+
+/-- `[b for b in self.grid.blocklist if mapping[b.name] == k]` (name, volume) -/
+def mappedBlocks (m : Dict Str) (k : Str) (tgrid : List (Str × Rat)) : List (Str × Rat) :=
+  tgrid.filter (fun b => decide (dget m b.1 = .ok k))
+
+/-- `[c for c in incols if colmapping[c.name] == k]` -/
+def mappedCols (cm : Dict Str) (k : Str) (incols : List Col) : List Col :=
+  incols.filter (fun c => decide (dget cm c.name = .ok k))
+
+/-- the target columns whose centre lies inside the source geometry (`incolFlags`, an input) -/
+def insideCols (t : Geo) (flags : List Bool) : List Col := ((t.cols.zip flags).filter (·.2)).map (·.1)
+
+/-- A source generator that is not a column (top/bottom) generator is moved to the MAPPED blocks:
+    it is copied once onto every target block whose image under the block mapping is the
+    generator's block — exactly those, in grid order (`p.2.block = p.1.1`,
+    `mapping[p.2.block] = sg.block`).  Its `gx`/`rate` are scaled by (target block volume) /
+    (source block volume), or / (total volume of the mapped blocks) with `preserve_totals`;
+    its name is kept, or with `rename` rebuilt from its category and the new block's column. -/
+theorem generator_transfer_interior (q : List (Rat × Rat) → Rat × Rat → Nat) (gens : List Gen) (s t : Geo)
+    (sgridVol : Dict Rat) (tgrid : List (Str × Rat)) (flags : List Bool) (top bottom : List Str)
+    (mp cmp : Dict Str) (rename preserve : Bool) (outs : List GenOut)
+    (h : transferGenerators q gens s t sgridVol tgrid flags top bottom mp cmp rename preserve = .ok outs) :
+    ∃ (m cm : Dict Str) (ls : List (List GenOut)), effectiveMaps q s t mp cmp = .ok (m, cm) ∧
+      outs = ls.flatten ∧ ls.length = gens.length ∧
+      ∀ (i : Nat) (sg : Gen), gens[i]? = some sg → (top ++ bottom).contains (layerName s.conv sg.name) = false →
+        ∃ l svol, ls[i]? = some l ∧ dget sgridVol sg.block = .ok svol ∧
+          l.length = (mappedBlocks m sg.block tgrid).length ∧
+          ∀ p ∈ (mappedBlocks m sg.block tgrid).zip l,
+            p.2.src = i ∧ p.2.block = p.1.1 ∧ dget m p.2.block = .ok sg.block ∧
+            (if preserve then sumQ ((mappedBlocks m sg.block tgrid).map (·.2)) else svol) ≠ 0 ∧
+            scaleGen sg (p.1.2 / (if preserve then sumQ ((mappedBlocks m sg.block tgrid).map (·.2)) else svol))
+              = .ok (p.2.gx, p.2.rate) ∧
+            (rename = false → p.2.name = sg.name) ∧
+            (rename = true → ∃ cat, (if t.conv = s.conv then .ok (layerName s.conv sg.name)
+                 else pick3 t.conv [' ', '0'] (layerName s.conv sg.name) : Except Exc Str) = .ok cat ∧
+               blockName t.conv cat (columnName t.conv p.1.1) = .ok p.2.name) :=
+  Proofs.Mapping.generators_interior q gens s t sgridVol tgrid flags top bottom mp cmp rename preserve outs h
+
+/-- A column generator (its category — the layer part of its name — is listed in `top` or
+    `bottom`) is moved to the MAPPED columns: one copy for every target column inside the source
+    whose image under the column mapping is the column of the generator's block, in column
+    order; the copy sits on the block of that column's top layer (`column_surface_layer`) for a
+    top generator, of the bottom layer for a bottom generator; `gx`/`rate` are scaled by (target
+    column area) / (source column area), or / (total area of the mapped columns) with
+    `preserve_totals`; the name is (category, new column). -/
+theorem generator_transfer_column (q : List (Rat × Rat) → Rat × Rat → Nat) (gens : List Gen) (s t : Geo)
+    (sgridVol : Dict Rat) (tgrid : List (Str × Rat)) (flags : List Bool) (top bottom : List Str)
+    (mp cmp : Dict Str) (rename preserve : Bool) (outs : List GenOut)
+    (h : transferGenerators q gens s t sgridVol tgrid flags top bottom mp cmp rename preserve = .ok outs) :
+    ∃ (m cm : Dict Str) (ls : List (List GenOut)), effectiveMaps q s t mp cmp = .ok (m, cm) ∧
+      outs = ls.flatten ∧ ls.length = gens.length ∧
+      ∀ (i : Nat) (sg : Gen), gens[i]? = some sg → (top ++ bottom).contains (layerName s.conv sg.name) = true →
+        ∃ l area, ls[i]? = some l ∧
+          l.length = (mappedCols cm (columnName s.conv sg.block) (insideCols t flags)).length ∧
+          (preserve = true → area = sumQ ((mappedCols cm (columnName s.conv sg.block) (insideCols t flags)).map (·.area))) ∧
+          (preserve = false → ∃ C, s.findCol (columnName s.conv sg.block) = .ok C ∧ area = C.area) ∧
+          ∀ p ∈ (mappedCols cm (columnName s.conv sg.block) (insideCols t flags)).zip l,
+            p.2.src = i ∧ p.1 ∈ t.cols ∧ dget cm p.1.name = .ok (columnName s.conv sg.block) ∧
+            area ≠ 0 ∧ scaleGen sg (p.1.area / area) = .ok (p.2.gx, p.2.rate) ∧
+            (∃ ln, colGenLayer t top (layerName s.conv sg.name) p.1 = .ok ln ∧
+                blockName t.conv ln p.1.name = .ok p.2.block) ∧
+            (∃ cat, colGenCategory s t (top ++ bottom) (layerName s.conv sg.name) = .ok cat ∧
+                blockName t.conv cat p.1.name = .ok p.2.name) :=
+  Proofs.Mapping.generators_column q gens s t sgridVol tgrid flags top bottom mp cmp rename preserve outs h
+
+/-- block volumes: 1000 in `exSrc 2`, 125 in `exTgt 2` -/
+def exSVol : Dict Rat := match (exSrc 2).blockNameList with | .ok ns => ns.map (fun n => (n, 1000)) | .error _ => []
+def exTGrid : List (Str × Rat) := match (exTgt 2).blockNameList with | .ok ns => ns.map (fun n => (n, 125)) | .error _ => []
+/-- two interior generators WITH THE SAME NAME (blocks '  a 2', '  b 3') and a top generator on column 'b' -/
+def exGens2 : List Gen :=
+  [⟨[' ', ' ', 'a', 'w', 'l'], [' ', ' ', 'a', ' ', '2'], ['M', 'A', 'S', 'S'], none, some 8, none⟩,
+   ⟨[' ', ' ', 'a', 'w', 'l'], [' ', ' ', 'b', ' ', '3'], ['M', 'A', 'S', 'S'], none, some 8, none⟩,
+   ⟨[' ', ' ', 'b', '9', '9'], [' ', ' ', 'b', ' ', '2'], ['H', 'E', 'A', 'T'], none, some 6, none⟩]
+
+-- the call returns (coarse `exSrc 2` onto fine `exTgt 2`, computed mappings, preserve_totals): (src, block, gx) of the
+-- new list: each 'awl' generator lands on the four target blocks mapped to its block with a quarter of gx;
+-- the top generator on the top blocks of the two target columns mapped to column 'b' with half of gx
+example : (match transferGenerators nearestIdx exGens2 (exSrc 2) (exTgt 2) exSVol exTGrid [true, true, true, true]
+      [['9', '9']] [['9', '8']] [] [] false true with
+    | .ok outs => outs.map (fun o => (o.src, o.block, o.gx))
+    | .error _ => []) =
+    [(0, [' ', 'c', ' ', ' ', '1'], some 2), (0, [' ', 'c', ' ', ' ', '2'], some 2),
+     (0, [' ', 'd', ' ', ' ', '1'], some 2), (0, [' ', 'd', ' ', ' ', '2'], some 2),
+     (1, [' ', 'e', ' ', ' ', '3'], some 2), (1, [' ', 'e', ' ', ' ', '4'], some 2),
+     (1, [' ', 'f', ' ', ' ', '3'], some 2), (1, [' ', 'f', ' ', ' ', '4'], some 2),
+     (2, [' ', 'a', ' ', ' ', '3'], some 3), (2, [' ', 'b', ' ', ' ', '4'], some 3)] := by decide +kernel
+-- and with rename, without preserve_totals
+example : (transferGenerators nearestIdx exGens2 (exSrc 2) (exTgt 2) exSVol exTGrid [true, true, true, true]
+      [['9', '9']] [['9', '8']] [] [] true false).toBool = true := by decide +kernel
 
 end Props.C19
